@@ -1,0 +1,9 @@
+//go:build !verif
+
+package rp
+
+import "context"
+
+// verifPoint marks a schedule point of remoteKeySet; without the build tag `verif` it is an
+// empty function that the compiler inlines away.
+func verifPoint(context.Context, string) {}
